@@ -732,12 +732,44 @@ func runBurst(w Workload) (clients []*cli, st stats, err error) {
 	if dbg {
 		fmt.Fprintf(os.Stderr, "finals done %v\n", time.Since(t0))
 	}
-	// let everything drain: all send queues empty and nothing received anywhere for 3 ms
-	for k := 0; k < 40000; k++ {
+	// barrier: each client makes one round trip through the broker and one
+	// through the dealer behind everything it sent; the workers execute in
+	// arrival order, so afterwards nothing of this burst is in flight
+	var bar sync.WaitGroup
+	for _, c := range clients {
+		bar.Add(1)
+		go func(c *cli) {
+			defer bar.Done()
+			for len(c.notify) > 0 {
+				<-c.notify
+			}
+			sreq := c.nextReq() + 5000000
+			c.send(func(int) wamp.Message {
+				return &wamp.Subscribe{Request: sreq, Topic: wamp.URI(fmt.Sprintf("c08.barrier.%d", c.idx))}
+			})
+			m := c.await(func(m wamp.Message) bool { s, ok := m.(*wamp.Subscribed); return ok && s.Request == sreq }, 10*time.Second)
+			if m != nil {
+				sub := m.(*wamp.Subscribed).Subscription
+				ureq := sreq + 1
+				c.mu.Lock()
+				c.unsub[ureq] = sub
+				c.mu.Unlock()
+				c.send(func(int) wamp.Message { return &wamp.Unsubscribe{Request: ureq, Subscription: sub} })
+				c.await(func(m wamp.Message) bool { u, ok := m.(*wamp.Unsubscribed); return ok && u.Request == ureq }, 10*time.Second)
+			}
+			c.send(func(seq int) wamp.Message {
+				return &wamp.Call{Request: wamp.ID(seq), Procedure: "c08.barrier.none", Arguments: wamp.List{c.idx, seq}}
+			})
+			c.await(func(m wamp.Message) bool { e, ok := m.(*wamp.Error); return ok && e.Type == wamp.CALL }, 10*time.Second)
+		}(c)
+	}
+	bar.Wait()
+	// and nothing received anywhere for 2 ms
+	for k := 0; k < 4000; k++ {
 		now := time.Now().UnixNano()
 		quiet := true
 		for _, c := range clients {
-			if len(c.out) > 0 || now-atomic.LoadInt64(&c.lastRx) < int64(3*time.Millisecond) {
+			if len(c.out) > 0 || now-atomic.LoadInt64(&c.lastRx) < int64(2*time.Millisecond) {
 				quiet = false
 			}
 		}
